@@ -147,15 +147,29 @@ pub fn generate(seed: u64, peers: &[String]) -> Trace {
         }
     };
     let mut touched: Vec<usize> = Vec::new();
-    for _ in 0..(1 + rng.usize_below(6)) {
-        events.push(match rng.below(4) {
+    // rough leaf count, for boundary positions (0, count-1, count, count+1), deletions on a still-empty tree,
+    // refused writes beyond capacity
+    let mut count = 0usize;
+    for _ in 0..(1 + rng.usize_below(7)) {
+        let boundary = [0usize, 1, count.saturating_sub(1), count, count + 1];
+        events.push(match rng.below(5) {
             0 => {
-                let i = *rng.pick(&[2usize, 3, 4, 5, 6, 1000 + rng.clone().usize_below(5000)]);
-                touched.push(i);
+                let i = match rng.below(4) {
+                    0 => *rng.pick(&boundary),
+                    1 => 1usize << 20,                       // beyond capacity: refused by every backend
+                    _ => *rng.pick(&[2usize, 3, 4, 5, 6, 1000 + rng.clone().usize_below(5000)]),
+                };
+                if i < (1 << 20) {
+                    touched.push(i);
+                    count = count.max(i + 1);
+                }
                 Ev::Set { i, v: val(&mut rng) }
             }
-            1 | 2 => Ev::Append { v: val(&mut rng) },
-            _ => Ev::Delete { i: if touched.is_empty() || rng.chance(1, 3) { rng.usize_below(6000) } else { *rng.pick(&touched) } },
+            1 | 2 => {
+                count += 1;
+                Ev::Append { v: val(&mut rng) }
+            }
+            _ => Ev::Delete { i: match rng.below(3) { 0 => *rng.pick(&boundary), 1 if !touched.is_empty() => *rng.pick(&touched), _ => rng.usize_below(6000) } },
         });
     }
     for (s, l, i) in &members {
